@@ -141,6 +141,8 @@ func baseCreds(host string) []cred {
 			func(s string) bool { return host == "" && exactly(s, "g1") }),
 		jw("jwt-expired", "jwt", jwtSpec{"K1", false, "jw", false, []string{"admin"}, []string{h + "|/group/g1/"}}, never),
 		jw("jwt-no-admin", "jwt", jwtSpec{"K1", true, "jw", false, []string{"op", "present"}, []string{h + "|/group/g1/"}}, never),
+		jw("jwt-aud-root", "jwt", jwtSpec{"K1", true, "jw", true, []string{"admin"}, []string{h + "|/"}}, never),
+		jw("jwt-aud-not-group-tree", "jwt", jwtSpec{"K1", true, "jw", true, []string{"admin"}, []string{h + "|/grou", h + "|/recordings/g1/"}}, never),
 		jw("jwt-bad-sub", "jwt", jwtSpec{"K1", true, "x/../y", false, []string{"admin"}, []string{h + "|/group/g1/"}}, never),
 	}
 }
@@ -214,6 +216,10 @@ func baseShapes() []shape {
 		sh(G+"g1/.wildcard-user", "g1", "user"),
 		sh(G+"g1/.wildcard-user/.password", "g1", "pw"),
 		sh(G+"g1/real/.wildcard-user", "g1/real", "user"),
+		sh(G+"g1/sub/.users/bob", "g1/sub", "user"),
+		pw(G+"g1/sub/.users/bob/.password", "g1/sub", "bob"),
+		sh(G+"g1/sub/.wildcard-user/.password", "g1/sub", "pw"),
+		sh(G+"g1/sub/.keys", "g1/sub", "keys"),
 		sh(G+"g1/.keys", "g1", "keys"),
 		sh(G+"g2/.keys", "g2", "keys"),
 		sh(G+"g1/.keys/x", "g1", "keys"),
